@@ -38,6 +38,11 @@ def main():
         spec = {"tier": a.tier, "A": {"options": dict(STRICT_OPTS)}, "B": {"options": {"table_rtol": rt, "table_atol": at}},
                 "mode": "rel", "rel": 10 * rt, "floor": 10 * max(at, rt), "what": f"table_rtol={rt} table_atol={at} vs 1e-13"}
         run_cases(chk, "vlib.kvk", "compare", tt, spec, a.jobs)
+    # 5. function level: the tolerance-dependent table helpers on symbolic entries and symbolic tolerances
+    if not a.only:
+        from vlib import tabletol
+        tabletol.run(chk, a.tier)
+        chk.encoded("ffcx.ir.elementtables.clamp_table_small_numbers / is_zeros_table / is_ones_table / is_piecewise_table / is_uniform_table / is_permuted_table / equal_tables (real functions, symbolic entries and tolerances, numpy proxy for isclose/allclose)")
     chk.encoded("kernels of the same form under sum_factorization, part, table_rtol/table_atol (ffcx.ir.elementtables, representation, integral_generator, access.table_access)")
     chk.bounds = {"programs": {"sum_factorization": len(sf), "not_applicable": len(na), "diagonal": len(diag), "table_tol": len(tt)}, "inputs": "all kernel inputs symbolic"}
     chk.assumptions = ["exact arithmetic", "a Python exception raised for an option/cell combination counts as an explicit rejection (listed under outside_budget), not as a changed tensor"]
